@@ -66,6 +66,20 @@ with_stubs!(le_16k, #[kani::unwind(8)] pub fn c09q_api_limits_wide_63() {
 	assert!(r2.is_err());
 	core::mem::forget((r, r2));
 });
+/// BitVec, small concrete bit count (one-byte prefix, constant-propagated): when a known-length input holds fewer bytes than the
+/// bits need, the decode fails WITHOUT requesting any heap memory (allowance 0)
+#[cfg(feature = "ext")]
+with_stubs!(le_0, #[kani::unwind(8)] pub fn c09q_bitvec_no_request_before_data() {
+	use bitvec::prelude::*;
+	let bytes: [u8; 3] = kani::any();
+	let len: usize = kani::any();
+	kani::assume(len <= 3);
+	let r = BitVec::<u8, Lsb0>::decode(&mut Pre::count(63, &bytes[..len]));
+	assert!(r.is_err(), "63 bits need 8 bytes");
+	let r2 = BitVec::<u16, Msb0>::decode(&mut Pre::count(40, &bytes[..len]));
+	assert!(r2.is_err(), "40 bits in u16 words need 6 bytes");
+	core::mem::forget((r, r2));
+});
 /// BitVec: a bit count within the cap but far beyond the data (2^29-1 bits = 64 MiB of storage, 3 payload bytes)
 #[cfg(feature = "ext")]
 with_stubs!(le_16k, #[kani::unwind(8)] pub fn c09q_bitvec_hostile_unk() {
@@ -89,6 +103,27 @@ with_stubs!(le_64, #[kani::unwind(8)] pub fn c09q_bitvec_hostile_slice() {
 	assert!(r2.is_err());
 	core::mem::forget((r, r2));
 });
+
+/// `skip` is an entry point on untrusted input too: a hostile count must not make it reserve memory either
+fn hostile_skip<T: Decode, const L: usize>(c: u32, unk: bool) {
+	let bytes: [u8; L] = kani::any();
+	let len: usize = kani::any();
+	kani::assume(len <= L);
+	let r = if unk { T::skip(&mut PreUnk(Pre::count32(c, &bytes[..len]))) } else { T::skip(&mut Pre::count32(c, &bytes[..len])) };
+	assert!(r.is_err(), "skip accepted a count promising more data than is present");
+	kani::cover!(true, "reach: end of harness");
+}
+with_stubs!(le_64, #[kani::unwind(8)] pub fn c09q_skip_slice_vec_u32_63() { hostile_skip::<Vec<u32>, 4>(63, false) });
+with_stubs!(le_64, #[kani::unwind(8)] pub fn c09q_skip_slice_vec_bool_63() { hostile_skip::<Vec<bool>, 4>(63, false) });
+with_stubs!(le_16k, #[kani::unwind(8)] pub fn c09q_skip_unk_vec_u64_63() { hostile_skip::<Vec<u64>, 9>(63, true) });
+with_stubs!(le_64, #[kani::unwind(8)] pub fn c09q_skip_slice_string_63() { hostile_skip::<String, 4>(63, false) });
+with_stubs!(le_16k, #[kani::unwind(8)] pub fn c09t_skip_unk_deque_arr_63() { hostile_skip::<VecDeque<[u16; 2]>, 4>(63, true) });
+with_stubs!(le_64, #[kani::unwind(8)] pub fn c09q_skip_slice_vec_u32_2p26() { hostile_skip::<Vec<u32>, 4>(1 << 26, false) });
+with_stubs!(le_16k, #[kani::unwind(8)] pub fn c09q_skip_unk_vec_u16_2p26() { hostile_skip::<Vec<u16>, 4>(1 << 26, true) });
+/// element types that report a fixed encoded size, on inputs that cannot tell how much is left
+with_stubs!(le_16k, #[kani::unwind(8)] pub fn c09q_unk_vec_bool_2p26() { hostile_vec::<bool, 4>(1 << 26, true) });
+with_stubs!(le_16k, #[kani::unwind(8)] pub fn c09q_unk_vec_arr_u16_2p26() { hostile_vec::<[u16; 2], 5>(1 << 26, true) });
+with_stubs!(le_16k, #[kani::unwind(8)] pub fn c09t_unk_vec_nested_arr_2p20() { hostile_vec::<[[u32; 2]; 2], 5>(1 << 20, true) });
 
 // slice-like input (remaining length known): requests bounded by a small multiple of the input, no 16 KiB allowance needed
 with_stubs!(le_64, #[kani::unwind(8)] pub fn c09q_slice_vec_u8_max() { hostile_vec::<u8, 4>(u32::MAX as usize, false) });
